@@ -72,14 +72,19 @@ def call(fn):
         return ("exc", type(e).__name__)
 
 
+SOFT = []      # mismatches after which the history can go on (filled by _run, emptied by judge)
+
+
 def judge(case):
+    del SOFT[:]
+    out = []
     try:
         _run(case)
     except Mismatch as m:
-        return [Failure("C17." + m.sig.split("/")[0], m.sig, m.detail[:400])]
+        out = [Failure("C17." + m.sig.split("/")[0], m.sig, m.detail[:400])]
     except Exception as e:
-        return [Failure("C17.raises", "raises/" + exc_signature(e), repr(e)[:300])]
-    return []
+        out = [Failure("C17.raises", "raises/" + exc_signature(e), repr(e)[:300])]
+    return SOFT[:2] + out
 
 
 def _build(cls, ctor):
@@ -161,7 +166,12 @@ def _run(case):
         elif name == "pop":
             k, d = args
             r = call(lambda: real.pop(dk(k)) if d is None else real.pop(dk(k), d))
-            _same(r, ("ok", model.pop(up(k), d)), "pop", n, op)
+            if d is None and up(k) not in model:
+                # a dictionary raises KeyError here (RC-AS: the library answers None); the history goes on either way
+                if r != ("exc", "KeyError"):
+                    SOFT.append(Failure("C17.pop@missing-name-without-default", "pop/missing-name-without-default-does-not-raise", f"step {n} {op!r}: real={r!r}, a dict raises KeyError"))
+            else:
+                _same(r, ("ok", model.pop(up(k), d)), "pop", n, op)
         elif name == "setdefault":
             k, v = args
             r = call(lambda: real.setdefault(dk(k)) if v is None else real.setdefault(dk(k), v))
@@ -345,7 +355,12 @@ def info(case):
     return {"nontrivial": two, "classes": sorted(set(classes))}
 
 
-REGIONS = {}
+def region_pop_missing(case):
+    """RC-AS: histories that contain a pop() without a default (whether the name is present then is decided by the history)"""
+    return any(op[0] == "pop" and op[2] is None for op in case["ops"])
+
+
+REGIONS = {"pop-without-default": region_pop_missing}
 
 # ----------------------------------------------------------------------------- strategies
 
